@@ -58,7 +58,21 @@ def run(ctx):
                     cfg_text="CONSTANTS Deep = %s\nINIT GInit\nNEXT GNext\nINVARIANT Emit\n" % ("FALSE" if ctx.quick else "TRUE"))
     if g.rc != 0 or g.errors or not cfgs:
         raise InfraError("Runs_Gen failed: %s" % g.tail[-10:])
+    forms = cfgs[0]
+    cfgs = [c["cfg"] for c in cfgs]
     cfgs.sort(key=lambda c: json.dumps(c, sort_keys=True))
+    # every bound / width form of Runs!BoundForms as an attribute of its own
+    attrs = ["  cntb : INTEGER;", "  lst : LIST [0:?] OF INTEGER;"]
+    for i, b in enumerate(forms["bounds"]):
+        attrs.append("  u%d : %s [%s:%s] OF INTEGER;" % (i, "LIST" if b == "?" else ("ARRAY", "LIST", "SET", "BAG")[i % 4], "1" if b != "?" else "0", b))
+    for i, b in enumerate(forms["lowers"]):
+        attrs.append("  l%d : ARRAY [%s:9] OF REAL;" % (i, b))
+    for i, b in enumerate(forms["widths"]):
+        attrs.append("  w%d : STRING(%s);" % (i, b))
+        attrs.append("  x%d : BINARY(%s) FIXED;" % (i, b))
+    bounds_body = ("FUNCTION fb(p : INTEGER) : INTEGER; RETURN (p); END_FUNCTION;\nENTITY withbounds;\n" + "\n".join(attrs) + "\nEND_ENTITY;\n"
+                   + "".join("TYPE tb%d = LIST [1:%s] OF LIST [%s:5] OF INTEGER;\nEND_TYPE;\n" % (i, b, forms["lowers"][i % len(forms["lowers"])])
+                             for i, b in enumerate(forms["bounds"]) if b != "?" and "cntb" not in b and "lst" not in b))
     cases, g2 = fc.gen(ctx, with_mutants=False)
     cases = [c for c in cases if not c["schema"]["aux"]]
     cases = cases[:3] if ctx.quick else cases[::6][:12]
@@ -68,7 +82,7 @@ def run(ctx):
     inputs = []
     for i, c in enumerate(cases):
         inputs.append(("fam%d" % i, express.render(c["schema"])))
-    inputs.append(("bounds", express.render(cases[0]["schema"], BOUNDS_HEAD, BOUNDS)))
+    inputs.append(("bounds", express.render(cases[0]["schema"], BOUNDS_HEAD, bounds_body)))
     tools = [("exp2cxx", os.path.join(bdir, "bin", "exp2cxx")), ("exp2python", os.path.join(bdir, "bin", "exp2python")),
              ("exppp", os.path.join(bdir, "bin", "exppp")), ("schema_scanner", scan)]
     jobs = []
@@ -94,6 +108,12 @@ def run(ctx):
         if c["env"] == "big":
             for n in range(200):
                 env["VERIF_PAD_%d" % n] = "x" * 200
+        env["LC_ALL"] = c["locale"]
+        if c["heap"] == "mmap":
+            env["MALLOC_MMAP_THRESHOLD_"] = "1"
+        elif c["heap"] == "perturb":
+            env["MALLOC_PERTURB_"] = "165"
+            env["MALLOC_TOP_PAD_"] = "65536"
         cmd = [tbin, arg]
         if c["aslr"] == "off":
             cmd = ["setarch", os.uname().machine, "-R"] + cmd
